@@ -361,8 +361,8 @@ func enumPhase(r *core.Run) {
 		wg.Wait()
 		return
 	}
-	// thorough: every history of 3 edits under one combination, the histories of the
-	// quick tier (2 edits) are their prefixes; quick: every history under two combinations
+	// thorough: every history of 3 edits under one combination (seeded rotation), the histories
+	// of the quick tier (2 edits) are their prefixes; quick: every history under two combinations
 	type job struct {
 		c     ECase
 		combo int
@@ -370,9 +370,6 @@ func enumPhase(r *core.Run) {
 	var jobs []job
 	for i, c := range cases {
 		k := (i + int(r.Seed)) % 4
-		if r.Thorough() && (i+int(r.Seed))%3 != 0 {
-			continue // thorough: a third of the histories of 3 edits (seeded); every history of 2 edits is a prefix of several
-		}
 		jobs = append(jobs, job{c, k})
 		if !r.Thorough() {
 			jobs = append(jobs, job{c, (k + 3) % 4}) // the other option set and the other mtime regime
